@@ -268,7 +268,7 @@ class World:
         world = self
 
         def handler(**kwargs):
-            world.log.append(["H", name, world.snap(), world.truth()["dev"]])
+            world.log.append(["H", name, world.snap(), world.truth()])
         return handler
 
     def _mk_game_handler(self, name):
@@ -1030,10 +1030,15 @@ def oracle_c04(case, out):
                         (d, balls, counted, v["cap"], where))
             if snap["playfield"][0] < 0:
                 unknown = total - snap["known"]
-                tdev = it[3]["dev"] if k == "T" else it[3] if k == "H" else None
+                tdev = it[3]["dev"] if k in ("T", "H") else None
+                flights = it[3]["transit"] if k in ("T", "H") else []
+                # MPF still believes a ball on its way to a device which has physically bounced off onto the playfield
+                phantom = tdev is not None and any(
+                    snap[d][3] in ("ball_left", "failed_confirm") and devs[d]["target"] != "playfield" and
+                    not any(x[0] == d for x in flights) for d in devs)
                 behind = tdev is not None and any(
                     snap[d][0] - (1 if snap[d][3] in ("ball_left", "failed_confirm") else 0) > tdev[d] for d in devs)
-                if snap["playfield"][0] == -1 and (snap["playfield"][2] > 0 or unknown > 0 or behind):
+                if snap["playfield"][0] == -1 and (snap["playfield"][2] > 0 or unknown > 0 or behind or phantom):
                     # a capture from the playfield is booked before the eject confirmation (or the new-ball
                     # detection) that the very same capture triggers
                     add("playfield-balls-negative-transient",
